@@ -530,10 +530,32 @@ func buildAlignPlan(prop string) (*alPlan, error) {
 		}
 	}
 	// F1h: mismatches dearer than a deletion plus an insertion (gaps of both kinds end up adjacent): every pair up to length 4
-	for i, o := range opens(2 * mult) {
+	// (gap-open values fixed, not drawn: zero, small and large ones of the property's domain, both symmetries)
+	var harshOpens []int
+	for _, o := range []int{0, -2, -5, -1} {
+		if pb.wantsOpen(o) {
+			harshOpens = append(harshOpens, o)
+		}
+	}
+	harshOpens = append(harshOpens, opens(2*mult-2)...)
+	for i, o := range harshOpens {
 		t := pb.table(alGenMatrix(r, fmt.Sprintf("harsh-2-%d", i), l2, alMatOpts{sym: i%2 == 0, open: o, harsh: true}))
 		for _, a := range s2 {
 			for _, b := range s2 {
+				pb.call(t, a, b)
+			}
+		}
+	}
+	// ... and over three letters: one substitution between two matching flanks of a third letter (3, 8, 16 letters each): the flanks
+	// pay for a deletion right next to an insertion inside a local alignment
+	h3 := alPickLetters(r, 3)
+	for i, o := range harshOpens[:min(len(harshOpens), 3)] {
+		t := pb.table(alGenMatrix(r, fmt.Sprintf("harsh-3-%d", i), h3, alMatOpts{sym: i%2 == 1, open: o, harsh: true}))
+		for _, fl := range []int{3, 8, 16} {
+			for _, p := range [][3]int{{0, 1, 2}, {1, 2, 0}, {2, 0, 1}, {1, 0, 2}} {
+				left, right := bytes.Repeat(h3[p[2]:p[2]+1], fl), bytes.Repeat(h3[p[2]:p[2]+1], fl+1-fl%2)
+				a := append(append(append([]byte{}, left...), h3[p[0]]), right...)
+				b := append(append(append([]byte{}, left...), h3[p[1]]), right...)
 				pb.call(t, a, b)
 			}
 		}
